@@ -3,7 +3,7 @@
 (* MaxN (so that a slip in a definition is caught before it is used as an oracle):              *)
 (* Euler's criterion for the Legendre symbol, multiplicativity and periodicity of the Jacobi   *)
 (* symbol, gcd * lcm = |a b|, uniqueness of inverses, trial factors form the factorisation.    *)
-EXTENDS NumTheory, TLC
+EXTENDS NTAlg
 CONSTANT MaxN
 VARIABLES stage, n, a
 Init == stage = 0 /\ n = 3 /\ a = 0
@@ -27,5 +27,32 @@ GcdLcm == S /\ a # 0 => GcdDef(<<a, n>>) * LcmDef(<<a, n>>) = Abs(a) * n
                         /\ GcdDef(<<a, n, 6>>) = GcdDef(<<GcdDef(<<a, n>>), 6>>)
 InverseFacts == S => (Coprime(a, n) = (\E j \in 0..(n - 1) : IsInverse(a, n, j)))
                      /\ Cardinality({j \in 0..(n - 1) : IsInverse(a, n, j)}) <= 1
+(* ---- design layer (NTAlg.tla): the transcribed algorithms refine the definitions ---------- *)
+JacobiAlgRefines == S /\ n % 2 = 1 /\ n >= 3 => JacobiAlg(a, n) = JacobiDef(a, n)
+SqrtAlgRefines == S /\ IsPrime(n) /\ a \in 0..(n - 1) =>
+                    LET r == SqrtAlg(a, n) IN
+                    IF IsResidue(a, n) THEN r \in 0..(n - 1) /\ (r * r) % n = a ELSE r = -1
+InverseAlgRefines == S /\ n >= 2 /\ Coprime(a, n) => IsInverse(a, n, InverseAlg(a, n))
+PowModRefines == S /\ a >= 0 => PowMod((n % 7) + 2, (a % 8), n + 1) = PowNat((n % 7) + 2, (a % 8)) % (n + 1)
+HelperRefines == S /\ a = 0 => /\ PhiAlg(n) = PhiDef(n)
+                               /\ CarmichaelAlg(n) = CarmichaelDef(n)
+OrderFacts == S /\ n >= 2 /\ Coprime(a, n) =>
+                LET k == OrderMod(a, n) IN /\ PowMod(a % n, k, n) = 1 % n
+                                           /\ \A j \in 1..(k - 1) : PowMod(a % n, j, n) # 1 % n
+                                           /\ PhiAlg(n) % k = 0
+(* polynomial arithmetic: x^2 = b x - a in F_p[x]/(x^2 - b x + a); multiplication is commutative; exponent laws *)
+PolyFacts == S /\ IsPrime(n) /\ n > 2 /\ a \in 0..(n - 1) =>
+               LET f == <<a, 0 - 1, 1>>      \* x^2 - x + a
+                   x == <<0, 1>>
+                   x2 == PolyMul(x, x, f, n)
+                   g == <<a, 3>>
+               IN  /\ x2 = <<(0 - a) % n, 1>>
+                   /\ PolyMul(g, x, f, n) = PolyMul(x, g, f, n)
+                   /\ PolyExp(x, 3, f, n) = PolyMul(x2, x, f, n)
+                   /\ PolyExp(g, 4, f, n) = PolyMul(PolyMul(g, g, f, n), PolyMul(g, g, f, n), f, n)
+                   /\ PolyExp(g, 0, f, n) = <<1>>
+                   /\ LET t == n - a       \* x = -a in F_p[x]/(x + a): Horner evaluation of 1 + 2x + 3x^2 + 4x^3 + 5x^4
+                          v3 == (4 + t * 5) % n  v2 == (3 + t * v3) % n  v1 == (2 + t * v2) % n
+                      IN  PolyReduce(<<1, 2, 3, 4, 5>>, <<a, 1>>, n) = <<(1 + t * v1) % n>>
 NextPrimeFacts == S => LET q == NextPrime(n) IN IsPrime(q) /\ q > n /\ \A r \in (n + 1)..(q - 1) : ~IsPrime(r)
 =============================================================================
